@@ -46,7 +46,7 @@ theorem insertRec_spec (cap : Nat) (hcap : 4 ≤ cap) :
       intro M
       rw [List.append_assoc, SMap.insert_append_left _ _ _ _ hA, SMap.insert_append_right _ _ _ _ hB, List.append_assoc]
     unfold insertRec
-    simp only [hci, he]
+    simp only [hci, he, isFull, branchSplitMid, minKeys, decide_eq_true_eq]
     cases res with
     | updated c' old =>
       simp only []
